@@ -31,15 +31,37 @@ func init() { Registry["C15"] = runC15 }
 
 var c15Modes = []string{"healthy", "refused", "timeout", "http500", "server_error", "bad_data", "execution", "404", "truncated"}
 
+// Response-level failures delivered with a 2xx status: the error object of a
+// query error (bad_data / execution) in the body of a 200, and a complete 200
+// whose body is not JSON. They reach the caller through the body decoders
+// (streamSamples, streamSampleStream, streamConfig, streamFlags,
+// streamMetadata) and whatever wraps their errors, not through
+// tryDecodingAPIError as the non-2xx modes do.
+var c15BodyModes = []string{"bad_data_200", "execution_200", "garbage_200"}
+
+func c15IsBodyMode(m string) bool {
+	for _, x := range c15BodyModes {
+		if x == m {
+			return true
+		}
+	}
+	return false
+}
+
 var c15Endpoints = []string{"query", "query_range", "query_range_sliced", "config", "flags", "metadata"}
 
 type c15Case struct {
 	Modes  []string `json:"modes"`    // fault mode of each upstream, in configured order (uri, failover[0], failover[1])
 	Target string   `json:"target"`   // api:<endpoint> | check:<reporter>
 	Strict bool     `json:"required"` // prometheus{ required = ... }
+	// load-shape cases (c15_burst.go): target burst:<endpoint>
+	Burst *c15BurstSpec `json:"burst,omitempty"`
 }
 
 func (c c15Case) key() string {
+	if c.Burst != nil {
+		return fmt.Sprintf("%s|%s|required=%v|%s", strings.Join(c.Modes, ","), c.Target, c.Strict, c.Burst.String())
+	}
 	return fmt.Sprintf("%s|%s|required=%v", strings.Join(c.Modes, ","), c.Target, c.Strict)
 }
 
@@ -71,6 +93,12 @@ func c15Class(mode, endpoint string) string {
 		return c15Unavail
 	case "bad_data", "execution":
 		return c15QueryErr
+	case "bad_data_200", "execution_200":
+		// the server says the query is at fault; the HTTP status it says so with does not change that
+		return c15QueryErr
+	case "garbage_200":
+		// not classed by the statement (like a truncated body)
+		return c15DontCare
 	case "404":
 		if c15IsQueryEndpoint(endpoint) {
 			return c15QueryErr
@@ -254,9 +282,9 @@ func c15ContactsMatch(contacts []int, k int) bool {
 
 func c15ServerMessage(mode, token string) (typ, msg string) {
 	switch mode {
-	case "bad_data":
+	case "bad_data", "bad_data_200":
 		return "bad_data", "bad " + token
-	case "execution":
+	case "execution", "execution_200":
 		return "execution", "exec " + token
 	}
 	return "", ""
@@ -269,6 +297,13 @@ type c15Verdict struct {
 
 func c15Files(o c15Obs) map[string][]byte {
 	b, _ := json.MarshalIndent(o, "", " ")
+	if o.Case.Burst != nil {
+		return map[string][]byte{
+			"observation.json": b,
+			"pint.hcl":         []byte(c15BurstHCL(c15PlaceholderURIs(o), o.Case)),
+			"rules.yml":        []byte(c15BurstRules()),
+		}
+	}
 	return map[string][]byte{
 		"observation.json": b,
 		"pint.hcl":         []byte(c15HCL(c15PlaceholderURIs(o), o.Case.Strict, c15Timeout(o.Case.Modes))),
@@ -290,6 +325,10 @@ func c15PlaceholderURIs(o c15Obs) []string {
 // c15Judge is the oracle: a deterministic function of one recorded observation.
 func c15Judge(o c15Obs) (v c15Verdict) {
 	cs := o.Case
+	if cs.Burst != nil {
+		v, _ = c15JudgeBurst(o)
+		return v
+	}
 	if o.SetupErr != "" {
 		v.Inconc = "setup: " + o.SetupErr
 		return v
@@ -573,6 +612,51 @@ func c15Assignments(c *core.Ctx) [][]string {
 	} else {
 		out = append(out, three...)
 	}
+	return append(out, c15BodyAssignments(c)...)
+}
+
+// c15BodyAssignments: every assignment over the 9 + 3 modes in which at least
+// one upstream is in a 2xx-body mode: all with 1 and 2 upstreams, and with 3
+// upstreams all of them in thorough, a seed-chosen 16 in quick.
+func c15BodyAssignments(c *core.Ctx) [][]string {
+	all := append(append([]string{}, c15Modes...), c15BodyModes...)
+	hasBody := func(ms ...string) bool {
+		for _, m := range ms {
+			if c15IsBodyMode(m) {
+				return true
+			}
+		}
+		return false
+	}
+	var out, three [][]string
+	for _, a := range c15BodyModes {
+		out = append(out, []string{a})
+	}
+	for _, a := range all {
+		for _, b := range all {
+			if hasBody(a, b) {
+				out = append(out, []string{a, b})
+			}
+		}
+	}
+	for _, a := range all {
+		for _, b := range all {
+			for _, d := range all {
+				if hasBody(a, b, d) {
+					three = append(three, []string{a, b, d})
+				}
+			}
+		}
+	}
+	if c.Quick() {
+		perm := c.Rand("c15-three-upstreams-body", 0).Perm(len(three))[:16]
+		sort.Ints(perm)
+		for _, i := range perm {
+			out = append(out, three[i])
+		}
+	} else {
+		out = append(out, three...)
+	}
 	return out
 }
 
@@ -586,14 +670,24 @@ func c15CheckNames() []string {
 }
 
 func c15Cases(c *core.Ctx) []c15Case {
-	var cases []c15Case
+	// the load-shape cases first: each takes a few seconds, mostly asleep, and
+	// overlaps with the fault table that way
+	cases := c15BurstCases(c)
 	for ai, modes := range c15Assignments(c) {
 		for ei, ep := range c15Endpoints {
 			cases = append(cases, c15Case{Modes: modes, Target: "api:" + ep, Strict: (ai+ei)%2 == 1})
 		}
 		cases = append(cases, c15Case{Modes: modes, Target: "api:*", Strict: ai%2 == 0})
 		outage := c15AllUnavailable(c15ClassesFor(modes, "query")) // the four UNAVAILABLE modes are so on every endpoint
+		bodyAssignment := false
+		for _, m := range modes {
+			bodyAssignment = bodyAssignment || c15IsBodyMode(m)
+		}
 		for ci, name := range c15CheckNames() {
+			if bodyAssignment && c.Quick() && (ai+ci)%3 != 0 {
+				// quick: a rotating third of the checks alone (check:* below still runs all ten at once)
+				continue
+			}
 			if outage {
 				cases = append(cases, c15Case{Modes: modes, Target: "check:" + name, Strict: false}, c15Case{Modes: modes, Target: "check:" + name, Strict: true})
 			} else {
@@ -825,6 +919,10 @@ func c15Account(c *core.Ctx, run *core.Run, b *c15Batch, workers int, depth int)
 func c15AccountObs(run *core.Run, o c15Obs) {
 	run.Eval(1)
 	cs := o.Case
+	if cs.Burst != nil {
+		c15AccountBurst(run, o)
+		return
+	}
 	v := c15Judge(o)
 	if v.Inconc != "" {
 		run.Inconclusive(v.Inconc)
@@ -865,6 +963,19 @@ func c15AccountObs(run *core.Run, o c15Obs) {
 			if cl.ErrUnsupported {
 				run.Count("api_error_unsupported", 1)
 			}
+			for i, m := range cs.Modes {
+				if !c15IsBodyMode(m) {
+					continue
+				}
+				run.Distinct("body_mode_position_endpoint", fmt.Sprintf("%s@%d/%s", m, i, ep))
+				if i < len(o.Requests) && o.Requests[i] > 0 {
+					run.Count("api_calls_that_received_a_2xx_body_failure", 1)
+					if cls[i] == c15QueryErr && i < len(cs.Modes)-1 {
+						run.Count("api_calls_query_error_in_2xx_body_with_a_later_upstream_left_untouched", 1)
+					}
+					break
+				}
+			}
 		} else {
 			run.Count("check_runs", 1)
 			run.Distinct("checks_run", name)
@@ -877,6 +988,12 @@ func c15AccountObs(run *core.Run, o c15Obs) {
 			}
 			if len(cl.Problems) == 0 {
 				run.Count("check_runs_without_problem", 1)
+			}
+			for i, m := range cs.Modes {
+				if c15IsBodyMode(m) && i < len(o.Requests) && o.Requests[i] > 0 {
+					run.Count("check_runs_that_received_a_2xx_body_failure", 1)
+					break
+				}
 			}
 		}
 		if len(cs.Modes) > 1 {
@@ -980,10 +1097,18 @@ func runC15(c *core.Ctx) int {
 		c15Account(c, run, b, workers, 0)
 	}
 	// samples: a few executions as observed
-	shown := 0
+	shown, bursts := 0, 0
 	for _, b := range results {
 		for _, o := range b.Obs {
-			if o == nil || shown >= 8 {
+			if o != nil && o.Case.Burst != nil && o.Burst != nil && bursts < 2 && len(o.Case.Modes) > 1 {
+				run.Sample(c15BurstSample(*o))
+				bursts++
+			}
+		}
+	}
+	for _, b := range results {
+		for _, o := range b.Obs {
+			if o == nil || shown >= 6 || o.Case.Burst != nil {
 				continue
 			}
 			if len(o.Case.Modes) >= 2 && o.Case.Modes[0] != "healthy" && (shown%2 == 0) == strings.HasPrefix(o.Case.Target, "api:") {
@@ -998,14 +1123,19 @@ func runC15(c *core.Ctx) int {
 	nAssign := len(c15Assignments(c))
 	run.Extra("upstream_assignments", nAssign)
 	run.Extra("endpoints", c15Endpoints)
+	run.Extra("modes", append(append([]string{}, c15Modes...), c15BodyModes...))
+	run.Extra("upstream_assignments_with_a_2xx_body_mode", len(c15BodyAssignments(c)))
+	run.Extra("burst_cases_planned", len(c15BurstCases(c)))
 	run.Extra("checks", c15CheckNames())
 	run.Extra("exhaustive", !c.Quick())
 	run.Extra("children", children)
 	run.Extra("concurrent_cases", children*workers)
 	run.Assume("fault classes: healthy=OK; refused/timeout/HTTP 500/JSON server_error(503)=UNAVAILABLE; bad_data(400)/execution(422)=QUERY-ERROR; 404 on query endpoints=QUERY-ERROR; 404 on config/flags/metadata and a truncated 200 body=DON'T-CARE for continue-or-stop (the statement does not class them)")
+	run.Assume("2xx-body modes: the error object of a bad_data / execution error delivered with HTTP 200 = QUERY-ERROR (the server blames the query, whatever the status line says); a complete 200 whose body is not JSON = DON'T-CARE, like a truncated body")
+	run.Assume("load shapes: a timeout pint reports for a request keeps one of the `concurrency` workers of that upstream busy for at least the configured `timeout`; k such timeouts inside a burst that took less than ceil(k/concurrency) x timeout from before the first call to after the last return (one monotonic clock) mean the timeout ran while requests waited inside pint. Timeouts that fit into the elapsed time make the case inconclusive")
 	run.Assume("a closed port cannot count requests and a timeout-mode server may be abandoned before its handler runs: for these two only positive evidence (a counted request, or pint logged an error for that URI) is used")
 	run.Assume("pint's client timeout is 100ms (+1s added by pint) when a timeout-mode upstream is configured, 20s otherwise; an execution in which pint logs a client-side timeout for an upstream that is not in timeout mode is inconclusive")
 	return run.Finish("fault_enumeration",
-		"fault table over the real promapi.FailoverGroup built by config.Load + PrometheusGenerator from prometheus{uri, failover, required}: every assignment of 9 fault modes to 1 and 2 upstreams (+ all 729 assignments to 3 upstreams in thorough, a seed-chosen 73 in quick) x 6 API calls (query, query_range one slice, query_range three slices, config, flags, metadata) x 10 real online checks (required on/off for total outages). Oracle: reference automaton over per-upstream request counts of the fault servers, returned result (token + URI of the answering upstream) or error (classification, server message) and the problems of the check (summary, severity). All executions run 64-wide in -race children; a race report is a violation. Non-trivial = distinct (assignment, target, required) whose FIRST upstream is not healthy.",
+		"fault table over the real promapi.FailoverGroup built by config.Load + PrometheusGenerator from prometheus{uri, failover, required}: every assignment of 9 fault modes to 1 and 2 upstreams (+ all 729 assignments to 3 upstreams in thorough, a seed-chosen 73 in quick) x 6 API calls (query, query_range one slice, query_range three slices, config, flags, metadata) x 10 real online checks (required on/off for total outages); plus the assignments that contain a 2xx-body mode (query error object in a 200, non-JSON 200): all with 1 and 2 upstreams over the 12 modes, 3 upstreams all in thorough / 16 in quick, with a rotating third of the single checks in quick; plus load shapes: bursts of 26..64 distinct query / query_range / metadata requests and query/cost checks started at once on a group whose first reachable upstream is healthy but throttled (latency x concurrency 1..4, or pint's rateLimit), so that most of the burst waits inside pint longer than timeout+1s - every request must still be answered by that upstream (elapsed-time inequality, see assumptions). Oracle: reference automaton over per-upstream request counts of the fault servers, returned result (token + URI of the answering upstream) or error (classification, server message) and the problems of the check (summary, severity). All executions run 64-wide in -race children; a race report is a violation. Non-trivial = distinct (assignment, target, required) whose FIRST upstream is not healthy.",
 		core.Floors{MinEvaluations: int64(len(cases)), MinNontrivial: c.N(1500, 10000), MaxInconclusiveFrac: 0.02})
 }
